@@ -65,8 +65,10 @@ def judge_case(args):
         art, real, raised = None, None, type(e).__name__
     res = {"salt": salt, "raised": raised, "art": art if isinstance(art, str) else None}
     exp = case["exp"]
+    # a configuration that asks for the default to be documented in prose gets that sentence back in the description
+    strip = runner == "format" and bool(case["cfg"].get("edd"))
     if raised is None and exp["raises"] == "no":
-        d = G.compare(real, g.expected(exp, case["i"], salt))
+        d = G.compare(real, g.expected(exp, case["i"], salt), strip)
         if not d:
             res["verdict"] = "held"
             return res
@@ -87,7 +89,7 @@ def judge_case(args):
                 res["verdict"] = "finding"
                 return res
         elif asb["raises"] == "no":
-            d2 = G.compare(real, g.expected(asb, case["i"], salt))
+            d2 = G.compare(real, g.expected(asb, case["i"], salt), strip)
             if not d2:
                 res["verdict"] = "finding"
                 return res
@@ -162,6 +164,30 @@ def _short(i):
     ps = ",".join("{}/{}/{}".format(p["typ"], p["def"], p["doc"]) for p in i["params"])
     r = i["ret"]
     return "[{}] ret={} doc={}".format(ps, "-" if r["typ"] == "none" else "{}/{}/{}".format(r["typ"], r["def"], r["doc"]), i["doc"])
+
+
+def enabled_constant(run, extra=()):
+    return "{" + ", ".join('"%s"' % k for k in sorted(set(run.known) | set(extra))) + "}"
+
+
+def dump_cases(run, module, cfg, constants, shards=12, require_devs=True, enabled=None):
+    """Run the as-built configuration of a conversion spec with exactly the open findings enabled and return the
+    dumped behaviours; every listed finding must be reachable in the model (else known_findings.txt or the model is wrong)."""
+    from harness.common import MachineryError
+
+    c = dict(constants)
+    c["Enabled"] = enabled if enabled is not None else enabled_constant(run)
+    r = run.tlc(module, cfg, shards=shards, constants=c, timeout=3000)
+    cases = r.printed
+    if not cases:
+        raise MachineryError("{} {} produced no behaviours".format(module, cfg))
+    if require_devs:
+        seen = {d for case in cases for d in case["devs"]}
+        missing = sorted(set(run.known) - seen)
+        if missing:
+            raise MachineryError("listed findings {} are unreachable in {} {} -- fix known_findings.txt or the model".format(
+                missing, module, cfg))
+    return cases
 
 
 def replay_one(run, path):
